@@ -378,7 +378,11 @@ func (c *Cache) writeDump(w io.Writer) (int, error) {
 		}
 		msg, err := v.resp.Pack()
 		if err != nil {
-			return fmt.Errorf("failed to pack msg, %w", err)
+			// A response that dns.Msg.Unpack accepted is not always packable
+			// (e.g. an HTTPS record with an empty alpn-id). One such entry
+			// must not cost all the others.
+			c.logger.Warn("failed to pack cached msg, entry skipped", zap.Error(err))
+			return nil
 		}
 		e := &CachedEntry{
 			Key:                 []byte(k),
